@@ -185,6 +185,13 @@ def main(argv):
         if hasattr(mod, "extract"):
             mod.extract(ctx)
         lean = C.lean_check(pid, thorough=ctx.thorough, own_tables=hasattr(mod, "extract"))
+        tie = C.tie_check(pid)
+        lost = {k: v for k, v in tie.items() if v != "proved"}
+        if lost:
+            # the regenerated kernel is no longer identified with the model kernel: the correspondence check is then the
+            # only tie for it; look harder (thorough-sized generation within this run's budget)
+            C.log("translator tie lost (falling back to the correspondence tie, with a wider search): " + json.dumps(lost))
+            ctx.escalate = True
         have_driver = bool(lean.get("driver_path"))
         if have_driver:
             ctx.driver.path = lean["driver_path"]
@@ -229,6 +236,8 @@ def main(argv):
             "known_findings_printed": [l for l in lines if l.startswith("KNOWN-FINDING")],
             "partial": getattr(mod, "PARTIAL", ""),
         }
+        if tie:
+            cov["translator_tie"] = tie
         if "leanchecker" in lean:
             cov["leanchecker"] = lean["leanchecker"]
         C.write_evidence(pid, tier, seed, cov, getattr(mod, "ASSUMPTIONS", []), time.time() - t0, nviol)
